@@ -357,6 +357,12 @@ def add_ensures(c):
         ("scheduled-duration-is-validated", z3.And(p_duration(sp) >= p_duration(p), p_duration(sp) < p_duration(p) + clock(ch), p_duration(sp) >= min_dur(ch))),
         ("accepted-unchanged-if-clock-multiple", z3.Implies(z3.And(drift_none, p_duration(sp) == p_duration(p)), z3.And(P_AMP(sp) == P_AMP(p), P_DET(sp) == P_DET(p)))),
         ("within-limits-if-unchanged", z3.Implies(z3.And(drift_none, p_duration(sp) == p_duration(p), z3.Not(is_dmm(ch))), LIMITS(sp, ch))),
+        ("assert:targets-share-one-reference", z3.Implies(z3.Not(is_dmm(ch)), (lambda q1, q2: z3.ForAll([q1, q2], z3.Implies(z3.And(z3.Select(tg, q1), z3.Select(tg, q2)),
+                                                                                 last_phase(h0, tr0(q1)) == last_phase(h0, tr0(q2))),
+                                                                                 patterns=[z3.MultiPattern(ref0(q1), ref0(q2))]))(z3.Const("q1!ae", Qid), z3.Const("q2!ae", Qid)))),
+        ("assert:phase-uses-some-target's-reference", z3.Implies(z3.And(drift_none, z3.Not(is_dmm(ch))),
+                                                               z3.Exists([q], z3.And(z3.Select(tg, q), p_phase(sp) == fmt(p_phase(p) + z3.If(last_phase(h0, tr0(q)) == 0, 0, last_phase(h0, tr0(q))))),
+                                                                         patterns=[ref0(q)]))),
         ("phase-is-programmed-plus-reference", z3.Implies(z3.And(drift_none, z3.Not(is_dmm(ch))),
                                                          z3.ForAll([q], z3.Implies(z3.Select(tg, q), p_phase(sp) == fmt(p_phase(p) + z3.If(last_phase(h0, tr0(q)) == 0, 0, last_phase(h0, tr0(q))))), patterns=[ref0(q)]))),
         ("starts-after-latest-phase-shift-of-targets", z3.ForAll([q], z3.Implies(z3.Select(tg, q), s_ti(new) >= last_time(h0, tr0(q))), patterns=[ref0(q)])),
@@ -478,6 +484,7 @@ contract(SQ, "Sequence._delay", props=("C02", "C09", "C13"),
                  "ValueError": ("only-if", lambda c: z3.BoolVal(True))},
          modifies={SC.SLOTS: lambda c: [CS(c)]},
          exc_safe=True,
+         exc_safe_if=lambda c: z3.Or(z3.Not(T(c.at_rest)), z3.Not(sch_has(c.old, SCH(c), T(c.channel))), SC.no_pending_fall(c.old, CS(c))),
          )
 
 
@@ -512,4 +519,5 @@ contract(SQ, "Sequence._target", props=("C02", "C10", "C09", "C13"),
          raises={"RuntimeError": ("only-if", lambda c: z3.BoolVal(True)), "ValueError": ("only-if", lambda c: z3.BoolVal(True))},
          modifies={SC.SLOTS: lambda c: [CS(c)]},
          exc_safe=True,
+         exc_safe_if=lambda c: z3.Or(z3.Not(sch_has(c.old, SCH(c), T(c.channel))), SC.no_pending_fall(c.old, CS(c))),
          )
